@@ -2,7 +2,7 @@
    scripts, validity flags, slot budget) and all op lists. [due s e d] = entry e is pending with
    due time d (a live handle in the heap); Inv = heap order + handle/entry bijection. *)
 From Coq Require Import ZArith List Sorted.
-From LTV.C19 Require Import Model ProofsHeap ProofsSched ProofsRun Proofs ProofsRange.
+From LTV.C19 Require Import Model AModel ProofsHeap ProofsSched ProofsRun AProofs ProofsSim Proofs ProofsRange.
 Import ListNotations.
 Open Scope Z_scope.
 
@@ -106,7 +106,7 @@ Theorem ceil_seconds_negative_refuted : exists t, t < 0 /\ ~ (ceil_seconds t < t
 Proof. exact Proofs.ceil_seconds_negative_refuted. Qed.
 Print Assumptions ceil_seconds_negative_refuted.
 
-Theorem wait_for_ceil_rounding : forall E s e dt s' b, Inv E s ->
+Theorem wait_for_ceil_rounding : forall E s e dt s' b, 0 < min_time_wait -> 0 < min_time_update -> Inv E s ->
   b = WaitForCeil e dt \/ b = UpdForCeil e dt -> exec_basic E s b = (s', OOk) ->
   exists D, due s' e D /\ now s + dt <= D < now s + dt + 1000000 /\ D mod 1000000 = 0.
 Proof. exact Proofs.wait_for_ceil_rounding. Qed.
@@ -129,15 +129,88 @@ Proof. exact Proofs.no_internal_error. Qed.
 Print Assumptions no_internal_error.
 
 (* int64: under the range hypotheses the checked (int64) evaluation never overflows and equals the model *)
-Theorem exec_basic_chk_agrees : forall E s b, Inv E s -> Rng s -> arg_ok b ->
+Theorem exec_basic_chk_agrees : forall E s b, max_ok -> Inv E s -> Rng s -> arg_ok b ->
   exec_basic_chk E s b = Some (exec_basic E s b).
 Proof. exact ProofsRange.exec_basic_chk_agrees. Qed.
 Print Assumptions exec_basic_chk_agrees.
 
-Theorem range_preserved : forall E s b, Inv E s -> Rng s -> arg_ok b -> Rng (fst (exec_basic E s b)).
+Theorem range_preserved : forall E s b, min_ok -> max_ok -> Inv E s -> Rng s -> arg_ok b -> Rng (fst (exec_basic E s b)).
 Proof. exact ProofsRange.range_preserved. Qed.
 Print Assumptions range_preserved.
 
-Theorem params_ok_now : params_ok = true /\ 0 < min_time_wait /\ min_time_wait = min_time_update.
-Proof. exact Proofs.params_ok_now. Qed.
-Print Assumptions params_ok_now.
+(* ------------------------------------------------------------------------------------------------
+   The choice-driven model (AModel.v) that the correspondence check runs: theorems for EVERY sequence
+   of tie-breaking choices cs, every constants record C (probed from the compiled library) and every
+   environment E. [apend a e d] = entry e is pending with due time d. *)
+
+Theorem a_never_early : forall C E cs k a t a1 evs oc, aperform C E k a t cs = (a1, evs, oc) ->
+  forall e d, In (EFire e d) evs -> d <= t.
+Proof. exact AProofs.a_never_early. Qed.
+Print Assumptions a_never_early.
+
+Theorem a_not_late : forall C E cs k a t a1 evs, aperform C E k a t cs = (a1, evs, ADone) ->
+  forall e d, apend a1 e d -> t < d.
+Proof. exact AProofs.a_not_late. Qed.
+Print Assumptions a_not_late.
+
+Theorem a_fire_step : forall C E k a t c rest a1 evs oc,
+  aperform C E k a t (c :: rest) = (a1, evs, oc) -> oc <> ABad ->
+  exists d, apend a c d /\ d <= t /\ (forall e2 d2, apend a e2 d2 -> d <= d2) /\
+    adue (aset a c None) c = None /\
+    (forall e2, e2 <> c -> adue (aset a c None) e2 = adue a e2) /\
+    (k = 0%nat -> evs = [EFuel] /\ oc = AOutOfFuel /\ a1 = aset a c None) /\
+    (forall k1, k = S k1 ->
+       exists a2 os err, arun_script C E (aset a c None) (nth c (e_scr E) []) = (a2, os, err) /\
+         (err = true -> evs = EFire c d :: map EOut os /\ oc = AAborted /\ a1 = a2) /\
+         (err = false -> exists evs2, aperform C E k1 a2 t rest = (a1, evs2, oc) /\
+                                      evs = EFire c d :: map EOut os ++ evs2)).
+Proof. exact AProofs.a_fire_step. Qed.
+Print Assumptions a_fire_step.
+
+Theorem a_bad_iff : forall C E cs k a t a1 evs oc, aperform C E k a t cs = (a1, evs, oc) ->
+  (oc = ABad <-> (In EStuck evs \/ exists e, In (EBad e) evs)).
+Proof. exact AProofs.a_bad_iff. Qed.
+Print Assumptions a_bad_iff.
+
+Theorem a_fire_order_sorted : forall C E cs k a t a1 evs oc, (forall e, script E e = []) ->
+  aperform C E k a t cs = (a1, evs, oc) -> Sorted Z.le (fired_times evs).
+Proof. exact AProofs.a_fire_order_sorted. Qed.
+Print Assumptions a_fire_order_sorted.
+
+Theorem a_next_timeout_sound : forall a m, exists r, anext_timeout a m = ONext r /\
+  (forall e d, apend a e d -> r <= Z.max 0 (d - a_now a)) /\ (0 <= m -> 0 <= r <= m) /\
+  ((forall e d, ~ apend a e d) -> r = m).
+Proof. exact AProofs.a_next_timeout_sound. Qed.
+Print Assumptions a_next_timeout_sound.
+
+Theorem a_erase_prevents : forall E a e a1, aerase E a e = (a1, OOk) ->
+  adue a1 e = None /\ a_now a1 = a_now a /\ forall e2, e2 <> e -> adue a1 e2 = adue a e2.
+Proof. exact AProofs.a_erase_prevents. Qed.
+Print Assumptions a_erase_prevents.
+
+Theorem a_update_moves : forall C E a e t a1, valid E e = true -> (e < length (a_due a))%nat ->
+  aupdate_wait_until C E a e t = (a1, OOk) ->
+  adue a1 e = Some t /\ a_now a1 = a_now a /\ forall e2, e2 <> e -> adue a1 e2 = adue a e2.
+Proof. exact AProofs.a_update_moves. Qed.
+Print Assumptions a_update_moves.
+
+Theorem a_loop_never_oversleeps : forall C E a t1 d m c cs a1 evs, no_setnow E ->
+  aloop C E a t1 d m c cs = (a1, evs) ->
+  forall tnow snow r, In (ELoop tnow snow r) evs ->
+    tnow = t1 + d /\ snow = t1 + d /\ 0 <= r <= Z.max m 0 /\
+    forall e dd, apend a1 e dd -> r = 0 \/ tnow + r <= dd.
+Proof. exact AProofs.a_loop_never_oversleeps. Qed.
+Print Assumptions a_loop_never_oversleeps.
+
+(* today's tie-breaking policy (libstdc++ binary heap on time only) is an instance *)
+Theorem sim_dispatch : forall E t k s evs oc s1, Dispatch E t k s evs oc s1 ->
+  forall a, Abs E s a -> exists cs a1, aperform pC E k a t cs = (a1, evs, conv oc) /\ Abs E s1 a1.
+Proof. exact ProofsSim.sim_dispatch. Qed.
+Print Assumptions sim_dispatch.
+
+Theorem heap_policy_admissible : forall E n ops s1 outs,
+  (forall e, valid E e = true -> (e < n)%nat) -> forallb no_loop_op ops = true ->
+  run E (init n) ops = (s1, outs) ->
+  exists css a1, length css = length ops /\ arun pC E (ainit n) (combine ops css) = (a1, outs) /\ Abs E s1 a1.
+Proof. exact ProofsSim.heap_policy_admissible. Qed.
+Print Assumptions heap_policy_admissible.
